@@ -90,7 +90,7 @@ def run_impl(case):
     return su.run_real_cached(case)
 
 
-def run_model(drv, case):
+def _run_model_one(drv, case):
     if case["dim"] == "2D":
         prog = su.programs(case)[0]
         m = su.model_2d(drv, case, prog, prog["Frand"] if prog.get("Frand") is not None else su.recorded_frand(0))
@@ -115,7 +115,7 @@ def _dt(case, const):
     return 0.1 if case["dim"] == "0D" else su.dt_1d(const) if case["dim"] == "1D" else su.dt_2d(const)
 
 
-def compare(case, impl, model):
+def _compare_one(case, impl, model):
     dis = []
     if model is None:
         return dis
@@ -232,7 +232,7 @@ def _reconstruct_E(case, impl, run, weights="simpson"):
     return list(np.cumsum(Kv * dt))
 
 
-def predicates(case, impl):
+def _predicates_one(case, impl):
     out = []
     if impl.get("raise") or not impl.get("runs"):
         return out
@@ -279,7 +279,7 @@ def predicates(case, impl):
                                   f"already at step {j0} (E={E[j0]!r})"))
     # coarse cross-check of the volume element with a second quadrature
     Et = _reconstruct_E(case, impl, run, "trapezoid")
-    if dim != "0D" and E[i_end] > 0 and not (0.5 < Et[i_end] / E[i_end] < 2.0):
+    if dim != "0D" and E[i_end] > 0 and not (0.2 < Et[i_end] / E[i_end] < 5.0):
         out.append(Failure(clause="E_is_riemann_sum", key=f"quadrature_mismatch|{site}|",
                            detail=f"Simpson E {E[i_end]} vs trapezoid E {Et[i_end]}"))
     for j in range(len(E) - 1):
@@ -314,6 +314,56 @@ def predicates(case, impl):
         if not close(res[k], v, rtol=1e-8):
             out.append(Failure(clause="stats_at_nucleation_instant", key=f"stats_at_nucleation_instant|{site}|{k}",
                                detail=f"{k} reported {res[k]!r} but the field of step {i_end} gives {v!r}"))
+    return out
+
+
+# --- object histories: every run of the history is checked as the run of a fresh object with the programme
+# --- and the CONFIGURATION IN FORCE at that run (run() clears earlier outputs; constants are re-derived
+# --- by the configPath setter)
+def _views(case, impl):
+    if impl.get("raise") or not impl.get("runs"):
+        return [(case, impl)]
+    out = []
+    for k, run in enumerate(impl["runs"]):
+        ck = su.case_of_run(case, k) if len(impl["runs"]) > 1 else case
+        ik = dict(impl, runs=[run])
+        if run.get("const") is not None:
+            ik["const"], ik["visf"] = run["const"], run.get("visf")
+        out.append((ck, ik))
+    return out
+
+
+def run_model(drv, case):
+    n = len(su.programs(case))
+    if n == 1:
+        return _run_model_one(drv, case)
+    return {"history": [_run_model_one(drv, su.case_of_run(case, k)) for k in range(n)]}
+
+
+def compare(case, impl, model):
+    if model is None or "history" not in model:
+        return _compare_one(case, impl, model)
+    if impl.get("raise"):
+        return _compare_one(case, impl, model["history"][0])
+    dis = []
+    for k, ((ck, ik), mk) in enumerate(zip(_views(case, impl), model["history"])):
+        if "snap" not in ik["runs"][0]:
+            continue
+        dis += [f"run {k} of the object history: {d}" for d in _compare_one(ck, ik, mk)]
+    return dis
+
+
+def predicates(case, impl):
+    out = []
+    for k, (ck, ik) in enumerate(_views(case, impl)):
+        if ik.get("runs") and "snap" not in ik["runs"][0]:
+            continue
+        fs = _predicates_one(ck, ik)
+        if k > 0:
+            for f in fs:
+                f["key"] += "|object-history"
+                f["detail"] = f"run {k} of the object history (re-configured object): " + f["detail"]
+        out += fs
     return out
 
 
@@ -420,8 +470,29 @@ def cases_visf_early(tier):
     return out
 
 
+def cases_reconfigure():
+    """ONE object: run, then `S.configPath = <yaml with other kinetics>`, run again - the hazard of the second
+    run must be the one of the CURRENT constants"""
+    p0 = dict(dim="0D", config="shelf", k_s0=100, t_tot=3000, start=20, stop=-50, rate=0.1, holds=None, cnTemp=None,
+              frkind="mid", kind="reconfigure")
+    a = dict(p0, Frand=0.5)
+    a["runs"] = [dict(t_tot=3000, start=20, stop=-50, rate=0.1, holds=None, cnTemp=None, Frand=0.5,
+                      reconfig={"kinetics": {"a": 26.0, "c": 0.3}})]
+    h = 0.05
+    dt = su.dt_1d_default(h)
+    p1 = dict(dim="1D", config="shelf", height=h, k_s0=2000, t_tot=4700 * dt, start=20, stop=-50, rate=0.5, holds=None,
+              cnTemp=None, frkind="mid", kind="reconfigure", Frand=0.4)
+    b = dict(p1)
+    b["runs"] = [dict(t_tot=4700 * dt, start=20, stop=-50, rate=0.5, holds=None, cnTemp=None, Frand=0.4,
+                      reconfig={"kinetics": {"a": 31.0, "b": 20.5}})]
+    return [a, b]
+
+
 def cases(rng, tier):
-    n0, n1, nv, nn, n2 = (40, 16, 3, 4, 1) if tier == "quick" else (400, 150, 30, 20, 8)
+    yield su.jacket_case()
+    for c in cases_reconfigure():
+        yield c
+    n0, n1, nv, nn, n2 = (28, 12, 3, 4, 1) if tier == "quick" else (400, 150, 30, 20, 8)
     # processes with more than 10 000 steps (save stride > 1): the model integrates the hazard on EVERY
     # step; the nucleation step is compared exactly
     for c in su.stride_cases():
